@@ -94,6 +94,49 @@ def one(mod, case):
     return None
 
 
+def nested(mod, case):
+    """outer svg (viewBox, preserveAspectRatio P) containing an inner svg (x, y, width, height, viewBox, its own
+    preserveAspectRatio or none at all): the inner viewBox rectangle must land where the composition of the two
+    section 8.2 transforms puts it; an inner svg without the attribute uses xMidYMid meet whatever its ancestors say"""
+    ovb, osize, opar, ixywh, ivb, ipar = case
+    doc = ('<svg xmlns="http://www.w3.org/2000/svg" width="%r" height="%r" viewBox="%s"%s><svg x="%r" y="%r" width="%r" '
+           'height="%r" viewBox="%s"%s><rect id="r" x="%r" y="%r" width="%r" height="%r"/></svg></svg>') % (
+        osize[0], osize[1], " ".join(repr(v) for v in ovb), "" if opar is None else ' preserveAspectRatio="%s"' % opar,
+        ixywh[0], ixywh[1], ixywh[2], ixywh[3], " ".join(repr(v) for v in ivb),
+        "" if ipar is None else ' preserveAspectRatio="%s"' % ipar, ivb[0], ivb[1], ivb[2], ivb[3])
+    try:
+        svg = mod.SVG.parse(io.StringIO(doc))
+    except Exception as e:
+        return {"key": "parse-raises-%s" % type(e).__name__, "input": {"doc": doc}, "expected": "a tree", "got": repr(e)}
+
+    def split(par):
+        if par is None:
+            return "xMidYMid", "meet"
+        parts = par.split(" ")
+        return parts[0], (parts[1] if len(parts) > 1 else "meet")
+
+    oa, om = split(opar)
+    ia, im = split(ipar)
+    osx, osy, otx, oty = vp(0.0, 0.0, osize[0], osize[1], ovb[0], ovb[1], ovb[2], ovb[3], oa, om)
+    isx, isy, itx, ity = vp(ixywh[0], ixywh[1], ixywh[2], ixywh[3], ivb[0], ivb[1], ivb[2], ivb[3], ia, im)
+
+    def image(x, y):
+        x, y = isx * x + itx, isy * y + ity
+        return osx * x + otx, osy * y + oty
+
+    a, b = image(ivb[0], ivb[1]), image(ivb[0] + ivb[2], ivb[1] + ivb[3])
+    want = (min(a[0], b[0]), min(a[1], b[1]), max(a[0], b[0]), max(a[1], b[1]))
+    shapes = [e for e in svg.elements() if isinstance(e, mod.Rect)]
+    if len(shapes) != 1:
+        return {"key": "nested-rect-missing", "input": {"doc": doc}, "expected": "1 rect", "got": len(shapes)}
+    bb = shapes[0].bbox()
+    scale = max(1.0, max(abs(v) for v in want))
+    if any(abs(p - q) > 1e-7 * scale for p, q in zip(bb, want)):
+        return {"key": "nested-viewport-transform-wrong[%s]" % ("inner-default" if ipar is None else "inner-given"),
+                "input": {"doc": doc}, "expected": "inner viewBox rectangle mapped to %r" % (want,), "got": repr(bb)}
+    return None
+
+
 def replay(mod, witness):
     return {"reproduced": True, "detail": "re-run the check to reproduce; witness document: %s" % witness.get("input")}
 
@@ -121,16 +164,28 @@ def run(mod, tier, seed):
         distinct.add((c[1] is None, c[2] is None, c[3] is None, c[4] is None, c[5], str(c[1])[-1:], str(c[2])[-1:]))
         if r is not None:
             fails.append(r)
+    ncases = []
+    for ovb, osize in (((0.0, 0.0, 50.0, 80.0), (200.0, 100.0)), ((-10.0, 5.0, 90.0, 140.0), (300.0, 300.0))):
+        for opar in [None] + pars[1:] + ["xMaxYMid slice"]:
+            for ixywh, ivb in (((5.0, 6.0, 90.0, 30.0), (3.0, 4.0, 50.0, 80.0)), ((0.0, 0.0, 20.0, 40.0), (0.0, 0.0, 50.0, 50.0))):
+                for ipar in (None, "none", "xMinYMax slice"):
+                    ncases.append((ovb, osize, opar, ixywh, ivb, ipar))
+    for c in ncases:
+        r = nested(mod, c)
+        distinct.add(("nested", c[2], c[5]))
+        if r is not None:
+            fails.append(r)
     seen, out = set(), []
     for f in fails:
         if f["key"] not in seen:
             seen.add(f["key"])
             f["count"] = sum(1 for g in fails if g["key"] == f["key"])
             out.append(f)
-    return {"evaluations": len(cases), "distinct_nontrivial": len(distinct),
+    return {"evaluations": len(cases) + len(ncases), "distinct_nontrivial": len(distinct),
             "rule": "outermost svg with viewBox x width/height attribute {absent, number, in, pt, 50%, 100%, 0} x caller "
                     "width/height {absent, 800, 37.5} x preserveAspectRatio pool (+ random viewBoxes over six orders of "
                     "magnitude, all aligns, ppi): the viewBox rectangle must land where SVG 2 section 8.2 puts it; distinct = "
-                    "(which sizes are supplied how, preserveAspectRatio)",
+                    "(which sizes are supplied how, preserveAspectRatio); plus nested viewports: outer preserveAspectRatio x inner "
+                    "{absent, none, xMinYMax slice} x two geometries, composed transform",
             "bound": "%d cases" % len(cases), "exhaustive": False, "failures": out,
             "samples": [repr(c) for c in cases[:3]]}
